@@ -24,7 +24,7 @@ func (s *Sched) addTimer(d time.Duration, name string, f func()) *timer {
 	}
 	t := &timer{at: s.now + int64(d), seq: len(s.timers), f: f, name: name}
 	s.timers = append(s.timers, t)
-	touch(&s.clkh, 30)
+	touch(&s.clkv, 30)
 	return t
 }
 
@@ -62,7 +62,7 @@ func (s *Sched) fire(t *timer, eager bool) {
 	}
 	cur := s.cur
 	s.cur = nil // timer bodies are attributed to the clock in the happens-before hash
-	touch(&s.clkh, uint64(31+t.seq))
+	touch(&s.clkv, uint64(31+t.seq))
 	t.f()
 	s.cur = cur
 	// compact
@@ -89,7 +89,7 @@ func (s *Sched) fireTimer(eager bool) bool {
 func stopTimer(t *timer) bool {
 	was := !t.dead
 	t.dead = true
-	touch(&S.clkh, 32)
+	touch(&S.clkv, 32)
 	return was
 }
 
@@ -109,7 +109,7 @@ func Now() time.Time {
 	if S == nil {
 		return time.Now()
 	}
-	touch(&S.clkh, 33)
+	touch(&S.clkv, 33)
 	return Epoch.Add(time.Duration(S.now))
 }
 func Since(t time.Time) time.Duration { return Now().Sub(t) }
